@@ -326,6 +326,8 @@ def resolve(d, op, st_):
       typ = pref[cur]
     else:
       typ = GB_TYPES[int(op.get('t', 0)) % len(GB_TYPES)]
+    if typ.endswith(':' + PEOPLE) and PEOPLE not in d.engine.tables:
+      typ = 'Text'      # a reference type names an existing table (People may have been removed)
     if typ == cur:
       return None
     if op.get('meta'):
@@ -340,7 +342,10 @@ def resolve(d, op, st_):
     name = [n for n in COLNAMES + ['F', 'G'] if n not in [c['colId'] for c in d.columns(sref, visible_only=False)]]
     if not name:
       return None
-    return ['AddColumn', sid, name[0], {'type': GB_TYPES[int(op.get('t', 0)) % len(GB_TYPES)], 'isFormula': False}]
+    typ = GB_TYPES[int(op.get('t', 0)) % len(GB_TYPES)]
+    if typ.endswith(':' + PEOPLE) and PEOPLE not in d.engine.tables:
+      typ = 'Text'
+    return ['AddColumn', sid, name[0], {'type': typ, 'isFormula': False}]
   if k == 'addf':
     ss = summaries(d)
     s = _pick(ss, op.get('a', 0))
@@ -530,7 +535,7 @@ WEIGHTS = {'add': 10, 'upd': 22, 'rm': 8, 'rmpeople': 2, 'summary': 4, 'regroup'
            'rentable': 1, 'modtype': 8, 'rmcol': 3, 'addcol': 2, 'addf': 3, 'undo': 8, 'move': 4, 'rmpeopletable': 1}
 
 
-def _op():
+def _op(only=None):
   vals = st.lists(O.valspec(), min_size=1, max_size=5)
   table = {
     'add': st.fixed_dictionaries({'k': st.just('add'), 'n': st.integers(0, 2), 'mask': _mask6, 'vals': vals}),
@@ -552,7 +557,8 @@ def _op():
   }
   kinds = []
   for k in sorted(WEIGHTS):
-    kinds.extend([k] * WEIGHTS[k])
+    if only is None or k in only:
+      kinds.extend([k] * WEIGHTS[k])
   return st.sampled_from(kinds).flatmap(lambda k: table[k])
 
 
@@ -565,6 +571,10 @@ def strategy(tier):
     'summaries': st.lists(_mask6, min_size=1, max_size=3),
     'shuffle': st.booleans(),
   })
-  bundle = st.one_of(st.lists(_op(), min_size=1, max_size=1), st.lists(_op(), min_size=1, max_size=1),
-                     st.lists(_op(), min_size=2, max_size=2))
+  # A two-op bundle is any op followed by a record op: selectors are resolved against the document as it is
+  # before the bundle, so a second schema op would name what the first one just replaced (e.g. RemoveColumn of
+  # a group-by column followed by CreateViewSection for the remaining key found the retired summary table).
+  record_op = _op(only=('add', 'upd', 'rm', 'rmpeople'))
+  bundle = st.one_of(st.lists(_op(), min_size=1, max_size=1),
+                     st.tuples(_op(), record_op).map(list))
   return st.fixed_dictionaries({'setup': setup, 'bundles': st.lists(bundle, min_size=1, max_size=14 if big else 10)})
